@@ -131,6 +131,8 @@ class Goal:
     integrals list of dict(term=<exact Coq text of an RInt occurring after the prelude>,
                            pat=<pattern for [set], e.g. 'RInt _ 0 (3 / 16)'>,
                            ref=<reference expression for m2_ref.py>, rel=<relative half-width> | abs=<absolute half-width>)
+    finish    closing tactic; may contain %(iopt)s / %(gopt)s (options of the current level for interval / integral);
+              default "interval with (%(iopt)s)"; a goal with a single RInt can use "integral with (%(gopt)s)" and no enclosures
     ref       reference expression for the whole value (fallback decision), optional
     info      free dict copied into reports (case index, inputs, ...)
     """
@@ -163,7 +165,10 @@ class Goal:
             s += "  assert (H%d : %s <= %s <= %s) by (integral with (%s)).\n" % (k, rlit(lo), ig["term"], rlit(hi), gopt)
         for k, ig in enumerate(self.integrals):
             s += "  try set (I%d := %s) in *.\n" % (k, ig["pat"])
-        s += "  %s.\nQed.\n" % (self.finish or ("interval with (%s)" % iopt))
+        fin = self.finish or "interval with (%(iopt)s)"
+        if "%(" in fin:
+            fin = fin % dict(iopt=iopt, gopt=gopt)
+        s += "  %s.\nQed.\n" % fin
         return s
 
 
@@ -244,6 +249,12 @@ def run_goals(goals, pid, ncpu=8, timeouts=(40, 120), outdir=None, dps=40):
     st = {}
     for g in goals:
         st[g.result["status"]] = st.get(g.result["status"], 0) + 1
+    try:
+        with open(os.path.join(outdir, "%s_results.json" % pid), "w") as f:
+            json.dump([dict(id=g.gid, goal=g.statement(False), status=g.result["status"], log=g.result["log"], info=g.info) for g in goals],
+                      f, indent=1, default=str)
+    except OSError:
+        pass
     return dict(goals=len(goals), certified=st.get("certified", 0), refuted=st.get("refuted", 0),
                 undecided=st.get("undecided", 0), seconds=round(time.time() - t0, 1))
 
